@@ -14,6 +14,8 @@ pub open spec fn same_but_coins<C: ContentAddrStore>(a: UnsealedState<C>, b: Uns
 }
 /// A-HASH domain separation: a faucet marker id is never the id of a transaction output
 pub broadcast axiom fn axiom_marker_not_output(h: TxHash, tx: Transaction) ensures #[trigger] spec_fdp_hash(h) != (#[trigger] spec_txhash(tx)).0;
+/// A-HASH (preimage resistance for the all-zero constant): no transaction's signature-free hash is the zero hash (the genesis coin's id)
+pub broadcast axiom fn axiom_txhash_nonzero(tx: Transaction) ensures (#[trigger] spec_txhash(tx)).0 != spec_zero_hash();
 pub broadcast axiom fn axiom_marker_inj(a: TxHash, b: TxHash) requires #[trigger] spec_fdp_hash(a) == #[trigger] spec_fdp_hash(b) ensures a == b;
 
 // ---- exact coin-set transition of a batch (C02)
